@@ -30,6 +30,9 @@ class Pipe(secsgem.common.Connection):
         self.lock = LINK_LOCK
         self.bytes_in = 0
         self.segments_in = 0
+        # optional: enable() returns only when this callable is true or ~1 s passed (a transport whose enable() does not return
+        # before the link is up and selected, e.g. a connect that completes synchronously)
+        self.enable_blocks_until = None
         self._pump = threading.Thread(target=self._pump_loop, daemon=True, name=f"pipe-pump-{name}")
         self._pump.start()
 
@@ -37,6 +40,10 @@ class Pipe(secsgem.common.Connection):
     def enable(self):
         self.enabled = True
         try_connect(self)
+        if self.enable_blocks_until is not None:
+            t_end = time.time() + 1.0
+            while time.time() < t_end and not self.enable_blocks_until():
+                time.sleep(0.002)
 
     def disable(self):
         self.enabled = False
